@@ -1,4 +1,4 @@
-(* ServerFrame.v -- shared lemmas about the helpers of Server.v used by the C15 / C16 proofs:
+(* ServerRings.v -- shared lemmas about the helpers of Server.v used by the C15 / C16 proofs:
    lists-as-rings (set_nth, most-recent-first view), upd/getu, the fields each helper leaves
    alone, and a decomposition of send_chunk_or_dataless into named pieces. *)
 From Coq Require Import List NArith ZArith Arith Bool Lia.
